@@ -802,7 +802,7 @@ pub fn run_cmd(args: &Args) {
     for p in parts { for (l, a) in p.lines { corr.case(&l, &a); } rep.merge(p.rep); }
 
     // 4. random alphabets 2..704
-    let ncases = if thorough { 24000 } else { 800 };
+    let ncases = if thorough { 16000 } else { 800 };
     let parts = par_tasks(64, move |t| {
         let mut rng = Rng::new(seed ^ 0x68756666 ^ ((t as u64) << 20));
         let mut rep = Report::default();
